@@ -274,10 +274,117 @@ def cases_of_frame(rng, fr, heuristics, tier):
         if TABLE.get(h) == "ami" and not target_only and k * k * max(len(set(c)) for c in fr["cols"]) ** 2 > 3e7:
             target_only = True
         c = {"names": fr["names"], "cols": fr["cols"], "label": fr["label"], "heuristic": h,
-             "target_only": target_only, "entry": entry}
+             "target_only": target_only, "entry": entry, "pool": {"kind": "fake", "ncpus": rng.choice([1, 2, 8])}}
         if io != 1:
             c["interaction_order"] = io
         out.append(c)
+    return out
+
+
+def calls_pairwise(k):
+    """scoring calls of one pairwise batch over k columns: unordered pairs with self-pairs + duplicated non-label diagonals"""
+    return k * (k + 1) // 2 + (k - 1)
+
+
+def gen_wide_frame(rng, k, n):
+    """many cheap columns (so that one batch has >= 64 * workers scoring calls)"""
+    cols = []
+    for _ in range(k - 1):
+        r = rng.random()
+        if cols and r < 0.2:
+            src = rng.choice(cols)
+            dv = sorted(set(src))
+            nv = make_values(rng, rng.randint(1, max(1, min(4, len(dv)))), "words")
+            m = {v: rng.choice(nv) for v in dv}
+            cols.append([m[v] for v in src])
+        else:
+            kk = rng.choice([2, 2, 3, 4, 6, 9, 15, 40])
+            cols.append(fill(rng, n, make_values(rng, min(n, kk), rng.choice(["digits", "words", "mixed", "unicode"])),
+                             rng.choice(["uniform", "zipf"])))
+    src = rng.choice(cols)
+    nv = make_values(rng, 3, "words")
+    m = {v: rng.choice(nv) for v in sorted(set(src))}
+    lab = [(rng.choice(nv) if rng.random() < 0.2 else m[v]) for v in src]
+    pos = rng.randint(0, len(cols))
+    cols.insert(pos, lab)
+    names = ["w%02d" % i for i in range(k)]
+    rng.shuffle(names)
+    names[pos] = "label"
+    return {"names": names, "cols": cols, "label": "label"}
+
+
+def pool_cases(rng, tier):
+    """real pathos pools (2 and 3 workers) and fake pools reporting 2 / 8 workers, on batches with at least 64 calls per
+    worker and a call count that is not a multiple of the worker count; each is also run with a one-worker pool and
+    the multisets of emitted pairs are compared"""
+    out = []
+
+    def add(fr, h, pool):
+        out.append({"names": fr["names"], "cols": fr["cols"], "label": fr["label"], "heuristic": h, "target_only": False,
+                    "entry": "mrg", "pool": pool, "compare_serial": True, "kinds": ["wide"] * len(fr["cols"])})
+    reps = 1 if tier == "quick" else 3
+    for _ in range(reps):
+        k2 = rng.choice([17, 20])           # 169 / 229 calls: >= 128, odd
+        f2 = gen_wide_frame(rng, k2, rng.randint(300, 400))
+        add(f2, "max-value-coverage", {"kind": "real", "nodes": 2})
+        add(f2, "MI-numba-3mr", {"kind": "fake", "ncpus": 2})
+        add(f2, "MI-numba-randomized", {"kind": "real", "nodes": 2})
+        k3 = rng.choice([19, 20])           # 208 / 229 calls: >= 192, = 1 mod 3
+        f3 = gen_wide_frame(rng, k3, rng.randint(300, 400))
+        add(f3, "MI-numba-randomized", {"kind": "real", "nodes": 3})
+        add(f3, "max-value-coverage", {"kind": "fake", "ncpus": 3})
+        k8 = rng.choice([32, 33])           # 559 / 593 calls: >= 512, = 7 / 1 mod 8
+        f8 = gen_wide_frame(rng, k8, rng.randint(100, 140))
+        add(f8, "max-value-coverage", {"kind": "fake", "ncpus": 8})
+        add(f8, "MI-numba-randomized", {"kind": "fake", "ncpus": 8})
+        add(f8, "correlation-Pearson", {"kind": "fake", "ncpus": 8})
+    if tier != "quick":
+        # target-only with enough features for two workers
+        ft = gen_wide_frame(rng, 141, 200)
+        for h, pool in (("MI-numba-randomized", {"kind": "real", "nodes": 2}), ("MI", {"kind": "fake", "ncpus": 2})):
+            c = {"names": ft["names"], "cols": ft["cols"], "label": "label", "heuristic": h, "target_only": True,
+                 "entry": "mrg", "pool": pool, "compare_serial": True, "kinds": ["wide"] * 141}
+            out.append(c)
+    return out
+
+
+def gen_large_frame(rng, n=20000):
+    """one large batch: a column with ~4400 distinct values, about half of them singletons whose codes sort BEFORE the
+    repeated values (the empty string, punctuation / digit prefixes), repeated values incl. unicode; a few low-cardinality
+    columns; the high-cardinality column is the conditioning side of some pairs"""
+    nsing = rng.randint(2000, 2400)
+    nrep = rng.randint(2000, 2400)
+    sing = set([""])
+    while len(sing) < nsing:
+        sing.add(rng.choice(["!", "#", "0", "1", "7", "A"]) + "%05d" % rng.randrange(10 ** 5))
+    # a few singletons in between / after the repeated values as well
+    late = set()
+    while len(late) < 40:
+        late.add(rng.choice(["k", "\u00e9", "\u4e2d", "\U0001f600"]) + "~%04d" % rng.randrange(10 ** 4))
+    rep = set()
+    while len(rep) < nrep:
+        rep.add(rng.choice(["k", "r", "z", "\u00e9", "\u00df", "\u4e2d", "\U0001f600", "\ue000"]) + "%04d" % rng.randrange(10 ** 4))
+    rep = sorted(rep)
+    hi = sorted(sing) + sorted(late) + rep * 2            # every repeated value at least twice
+    w = [1.0 / (i + 1) ** 0.7 for i in range(len(rep))]
+    hi += rng.choices(rep, weights=w, k=n - len(hi))
+    rng.shuffle(hi)
+    f1 = fill(rng, n, make_values(rng, rng.randint(3, 9), "mixed"), "zipf")
+    grp = {v: rng.choice(["a", "b", "", "\u00e9"]) for v in set(hi)}
+    f2 = [(grp[v] if rng.random() < 0.8 else rng.choice(["a", "b", "", "\u00e9"])) for v in hi]
+    labv = make_values(rng, 2, "digits")
+    lab = [(labv[0] if (grp[v] in ("a", "") ) != (rng.random() < 0.15) else labv[1]) for v in hi]
+    return {"names": ["f1", "wide id", "f2", "label"], "cols": [f1, hi, f2, lab], "label": "label"}
+
+
+def large_cases(rng, tier):
+    out = []
+    for _ in range(1 if tier == "quick" else 3):
+        fr = gen_large_frame(rng)
+        for h in ("MI-numba-3mr", "MI-numba-randomized") + (() if tier == "quick" else ("MI-numba",)):
+            out.append({"names": fr["names"], "cols": fr["cols"], "label": "label", "heuristic": h, "target_only": False,
+                        "entry": "mrg", "pool": {"kind": "fake", "ncpus": rng.choice([1, 2, 8])},
+                        "kinds": ["indep", "large:half-singletons", "coarsen", "label:derived"]})
     return out
 
 
@@ -342,13 +449,27 @@ HEADER = ("From Coq Require Import List NArith ZArith QArith.\nFrom Outrank Requ
           "Import ListNotations.\nOpen Scope N_scope.")
 
 
+LARGE = 5000     # frames with more rows are coded by the Python mirror of the model (validated against Coq on all others)
+
+
+def py_codes(col):
+    """mirror of Coq `codes`: index in the code-point-sorted distinct values (Python compares str by code point)"""
+    idx = {v: i for i, v in enumerate(sorted(set(col)))}
+    return [idx[v] for v in col]
+
+
+def py_maxcov(a, b):
+    return Fraction(max(Counter(zip(a, b)).values()), len(a))
+
+
 def frame_key(names, cols):
     return json.dumps([names, cols], ensure_ascii=True)
 
 
 def model_eval(frames):
     """frames: dict key -> {"cols": [...], "pairs": set((i, j))}.  -> key -> (codes per column, {(i,j): Fraction})"""
-    keys = sorted(frames, key=lambda k: -sum(len(c) * len(set(c)) for c in frames[k]["cols"]))
+    big = [k for k in frames if frames[k]["cols"] and len(frames[k]["cols"][0]) > LARGE]
+    keys = sorted((k for k in frames if k not in big), key=lambda k: -sum(len(c) * len(set(c)) for c in frames[k]["cols"]))
     exprs = []
     plist = []
     for k in keys:
@@ -363,6 +484,14 @@ def model_eval(frames):
     for k, pairs, v in zip(keys, plist, vals):
         codes, qs = v
         out[k] = ([list(map(int, c)) for c in codes], {p: Fraction(int(q[0]), int(q[1])) for p, q in zip(pairs, qs)})
+        # the Python mirror (used for the large-batch family) must agree with the Coq model wherever both are evaluated
+        mirror = [py_codes(c) for c in frames[k]["cols"]]
+        if mirror != out[k][0] or any(py_maxcov(mirror[i], mirror[j]) != q for (i, j), q in out[k][1].items()):
+            raise vlib.Broken("mirror:python codes / max-coverage differ from the Coq model", "frame %s" % k[:300])
+    model_eval.validated = getattr(model_eval, "validated", 0) + len(keys)
+    for k in big:
+        codes = [py_codes(c) for c in frames[k]["cols"]]
+        out[k] = (codes, {p: py_maxcov(codes[p[0]], codes[p[1]]) for p in frames[k]["pairs"]})
     return out
 
 
@@ -379,7 +508,16 @@ def run_oracle(queries):
 def evaluate(cases, stats=None):
     """-> list of verdicts {"bad": [...], "nontrivial": bool, "rows": int, "error": str|None}"""
     stats = stats if stats is not None else {}
-    res = run_pipeline(cases)
+    # a case with compare_serial is also run with a one-worker pool; the two row multisets must agree
+    runlist, twin_of = list(cases), {}
+    for i, c in enumerate(cases):
+        if c.get("compare_serial"):
+            tw = {k: c[k] for k in c if k != "compare_serial"}
+            tw["pool"] = {"kind": "fake", "ncpus": 1}
+            twin_of[i] = len(runlist)
+            runlist.append(tw)
+    allres = run_pipeline(runlist)
+    res = allres[:len(cases)]
     frames = {}
     info = []
     for c, r in zip(cases, res):
@@ -418,9 +556,24 @@ def evaluate(cases, stats=None):
     ovals = run_oracle(queries)
 
     verdicts = []
-    for c, r, inf in zip(cases, res, info):
+    for ci, (c, r, inf) in enumerate(zip(cases, res, info)):
         v = {"bad": [], "nontrivial": False, "rows": 0, "error": None}
         verdicts.append(v)
+        if ci in twin_of and r["ok"]:
+            tr = allres[twin_of[ci]]
+            stats["pool_twin_comparisons"] = stats.get("pool_twin_comparisons", 0) + 1
+            if not tr["ok"]:
+                v["bad"].append({"clause": "the batch is scored without an exception / crash (one-worker pool)", "impl": tr["error"]})
+            else:
+                m1 = Counter((a, b) for a, b, _ in r["triplets"])
+                m0 = Counter((a, b) for a, b, _ in tr["triplets"])
+                if m1 != m0:
+                    miss = sorted((m0 - m1).items())[:6]
+                    extra = sorted((m1 - m0).items())[:6]
+                    v["bad"].append({"clause": "the rows of a batch do not depend on the worker pool: same multiset of (A, B) pairs as with a one-worker pool",
+                                     "row": None, "impl": {"missing_vs_one_worker": miss, "extra_vs_one_worker": extra,
+                                                           "rows": sum(m1.values()), "rows_one_worker": sum(m0.values())},
+                                     "expected": "identical pair multisets"})
         if not r["ok"]:
             v["error"] = r["error"]
             v["bad"].append({"clause": "the batch is scored without an exception / crash", "impl": r["error"],
@@ -545,6 +698,8 @@ def shrink(case, bad):
         if m > n:
             continue
         c = dict(case)
+        if (c.get("pool") or {}).get("kind") == "real":
+            c["pool"] = {"kind": "fake", "ncpus": int(c["pool"].get("nodes", 2))}
         c["names"] = [names[i] for i in keep]
         c["cols"] = [case["cols"][i][:m] for i in keep]
         if m == n and len(keep) == len(names):
@@ -605,20 +760,22 @@ def _check(run, replay):
             for c in cases_of_frame(run.rng, fr, heur, run.tier):
                 c["kinds"] = kinds
                 cases.append(c)
+        cases.extend(pool_cases(run.rng, run.tier))
+        cases.extend(large_cases(run.rng, run.tier))
     stats = {}
     verdicts = evaluate(cases, stats)
 
-    hist = {"rows_bucket": {}, "ncols": {}, "heuristic": {}, "mode": {}, "entry": {}, "max_cardinality_bucket": {},
+    hist = {"pool": {}, "rows_bucket": {}, "ncols": {}, "heuristic": {}, "mode": {}, "entry": {}, "max_cardinality_bucket": {},
             "column_kinds": {}, "impl_errors": 0, "rows_compared": 0}
 
     def bump(d, k):
         d[k] = d.get(k, 0) + 1
 
     def bucket(x):
-        for b in (1, 2, 3, 8, 32, 128, 512, 2000):
+        for b in (1, 2, 3, 8, 32, 128, 512, 2000, 20000):
             if x <= b:
                 return "<=%d" % b
-        return ">2000"
+        return ">20000"
     first_bad = None
     nviol = 0
     by_heur = {}
@@ -629,6 +786,8 @@ def _check(run, replay):
         bump(hist["heuristic"], c["heuristic"])
         bump(hist["mode"], "target_only" if c["target_only"] else "pairwise")
         bump(hist["entry"], c.get("entry", "mrg") + ("/io%d" % c["interaction_order"] if c.get("interaction_order", 1) != 1 else ""))
+        pl = c.get("pool") or {"kind": "fake", "ncpus": 1}
+        bump(hist["pool"], "%s/%s" % (pl.get("kind", "fake"), pl.get("nodes", pl.get("ncpus", 1))))
         bump(hist["max_cardinality_bucket"], bucket(max(len(set(col)) for col in c["cols"])))
         for kd in c.get("kinds", []):
             bump(hist["column_kinds"], kd)
@@ -636,7 +795,7 @@ def _check(run, replay):
         if v["error"]:
             hist["impl_errors"] += 1
         canon = [c["names"], c["cols"], c["label"], c["heuristic"], c["target_only"], c.get("entry", "mrg"),
-                 c.get("interaction_order", 1)]
+                 c.get("interaction_order", 1), c.get("pool")]
         run.count_case(canon, v["nontrivial"])
         if v["bad"]:
             nviol += 1
@@ -662,9 +821,10 @@ def _check(run, replay):
         best = {k: best[k] for k in best if k != "kinds"}
         b0 = bestv["bad"][0]
         run.violation("counterexample", "correspondence: mixed_rank_graph triplet vs prescribed heuristic value",
-                      case=best, impl=b0.get("row", b0.get("impl")), model=b0.get("expected"), clause=b0["clause"],
+                      case=best, impl=(b0.get("row") or b0.get("impl")), model=b0.get("expected"), clause=b0["clause"],
                       extra={"cases_disagreeing": nviol, "disagreeing_by_heuristic": by_heur, "all_bad_rows_of_this_case": bestv["bad"][:10]})
     hist.update(stats)
+    hist["frames_where_python_mirror_equals_coq_model"] = getattr(model_eval, "validated", 0)
     hist["cases_disagreeing_by_heuristic"] = by_heur
     run.cov["input_distribution"] = hist
     run.cov["exhaustive"] = False
